@@ -501,7 +501,7 @@ func c07EnumMember(size, shard, nshards int, emit func(c07Case)) {
 								for _, tLvl := range tLvls {
 									vias := []string{""}
 									if self && newMem == "join" && (jr == "restricted" || jr == "knock_restricted") {
-										vias = []string{"", "joined-power", "joined-nopower", "notjoined", "invalid"}
+										vias = []string{"", "joined-power", "joined-nopower", "notjoined", "invalid", "creator", "additional-creator"}
 									}
 									for _, via := range vias {
 										idx++
@@ -555,6 +555,18 @@ func c07MemberCase(version, newMem string, self bool, sPrev, tPrev, jr string, s
 		content = content.with("join_authorised_via_users_server", jstr(c07Carol))
 	case "invalid":
 		content = content.with("join_authorised_via_users_server", jstr("notauser"))
+	case "creator":
+		// the creator is joined; in v12 it is not in the users map (infinite level), elsewhere it has 100
+		content = content.with("join_authorised_via_users_server", jstr(c07Creator))
+	case "additional-creator":
+		// carol is joined with users-map level 49 (< invite 50) unless she is an additional creator (v12)
+		r.Members[c07Carol] = "join"
+		if vtraits[version].Creators {
+			r.AddCreator = []string{c07Carol}
+		} else {
+			users[c07Carol] = 49
+		}
+		content = content.with("join_authorised_via_users_server", jstr(c07Carol))
 	}
 	r.PL = c07PLContent(users, map[string]int64{"ban": 50, "kick": 50, "invite": 50}, nil, nil)
 	b := c07Build(r)
